@@ -17,7 +17,7 @@ NOTES = {
  "C12-4": "missed at first: deleteRecords on the list at capacity added",
  "C17-1": "missed at first: model state is now part of every dedup key (DESIGN 12)",
  "C17-2": "missed at first: shrinking alphabetUpdate added",
- "C19-1": "vote-counting defect: decided by C17 (C19's ledgers run cheque votes for n=1 only)",
+ "C19-1": "first caught only by C17; C19's ledgers without Notary now run vote-collected cheques/setConfig/removals on 2 and 4 stored keys",
  "C19-4": "missed at first: Alphabet contract with an index beyond the committee added",
  "C02-3": "missed at first: contract-owned accounts (the token's own hash) as `from` added",
  "C05-3": "missed at first: history 'fee lowered to zero between puts' added",
